@@ -188,6 +188,26 @@ class SymEnv(BaseEnv):
     def seed(self, s):
         pass
 
+    def reseed(self):
+        """restart the coin stream: the next draws are IDENTIFIED with the draws after the previous reseed()"""
+        coins = STORE.coins
+        prev = getattr(self, '_reseed_mark', None)
+        if prev is not None:
+            self._streams.append(coins[prev:])
+        else:
+            self._streams = []
+        self._reseed_mark = len(coins)
+
+    def identify_streams(self):
+        """assumption: corresponding draws of all streams opened by reseed() are equal (same RNG seed)"""
+        coins = STORE.coins
+        streams = list(self._streams) + [coins[self._reseed_mark:]]
+        conds = []
+        for s in streams[1:]:
+            for a, b in zip(streams[0], s):
+                conds.append(compare('==', a, b))
+        return AND(conds)
+
     def run(self, thunk):
         interps = [p.interp for p in self.pk.values()]
         marks = [len(i.events) for i in interps]
@@ -238,7 +258,14 @@ class ConcreteEnv(BaseEnv):
         return None
 
     def seed(self, s):
+        self._seed = s
         seed_all(self.real, s)
+
+    def reseed(self):
+        seed_all(self.real, getattr(self, '_seed', 0))
+
+    def identify_streams(self):
+        return True
 
     def run(self, thunk):
         try:
